@@ -75,6 +75,7 @@ def parseArg (t : String) : Arg :=
 def errName : Err → String
   | .enoerr => "ENOERR" | .eperm => "EPERM" | .estack => "ESTACK" | .edivby0 => "EDIVBY0"
   | .eargtm => "EARGTM" | .efunnf => "EFUNNF" | .eionmnf => "EIONMNF"
+  | .enotref => "ENOTREF" | .enonscatopos => "ENONSCATOPOS"
 
 def escLine (s : String) : String := String.ofList (s.toList.map fun ch => if ch == ' ' then '_' else ch)
 def showLines (l : List String) : String := String.join (l.map fun s => escLine s ++ "|")
@@ -155,13 +156,13 @@ def step (s : St) (line : String) : St × String :=
       (match site with | some p => { s1 with sites := p :: s1.sites } | none => s1, "-")
     | none => (s, "bad-action")
   | ["endprog"] => (s, "-")
-  | ["parse", _] =>
+  | "parse" :: _ :: _ =>
     if anyOpen s.w then (s, "parse refused") else
     let sites := s.sites
     let p : Prog := { ng := s.ng, hidden := 2, funs := s.funs, begin_ := s.begin_, end_ := s.end_,
                       siteName := fun n => match sites.find? (·.1 == n) with | some q => q.2 | none => "" }
     ({ s with w := { s.w with interp := s.w.interp.parse p } }, "parse ok" ++ progInfo p)
-  | ["parsebad", _] =>
+  | "parsebad" :: _ :: _ =>
     if anyOpen s.w then (s, "parse refused") else
     ({ s with w := { s.w with interp := s.w.interp.clear } }, "parse err" ++ progInfo {})
   | ["clear"] =>
